@@ -238,6 +238,11 @@ func (nak *NesterAccountKeeper) SetAccount(account EthAccount) error {
 func (nak *NesterAccountKeeper) RemoveAccount(account EthAccount) {
 	prefixKey := append(nak.prefix, account.Address.Bytes()...)
 	nak.state.Delete(prefixKey)
+	// the account's balance lives in the balance store: a destroyed (self-destructed
+	// or emptied) account must not keep it, the EVM has already moved it on
+	if currency, ok := nak.currencies.GetCurrencyByName("OLT"); ok {
+		_ = nak.balances.SetBalance(account.Address, currency.NewCoinFromAmount(*NewAmount(0)))
+	}
 }
 
 func (nak *NesterAccountKeeper) GetNonce(addr keys.Address) uint64 {
